@@ -140,7 +140,23 @@ CLAIMS.update({
      note='Statement-sited strategies and the expression-sited inline (every call carries a unique marker; expression cursors forwarded); insert_round sites are not enumerated; blocks <= 6 statements at design level.'),
 })
 
+CLAIMS.update({
+ 'C14': dict(engine='AbsFormat', technique='explicit TLA+ statement of format membership and of the soundness conditions of the abstract arithmetic, checked with TLC on recorded answers of the real analysis (mode V); program level: the abstract machine checks the inferred bound of every assignment / return while it runs the real AST (FmtMachine)', text=(
+     'spec/AbsFormat.tla defines membership in a format bound (abstract number system: precision, quantum, bounds, each special, '
+     'the negative zero; value sets; lists and tuples) and judges the real AbstractFormat +, -, *, neg, abs, |, &, <=, exact_binop / '
+     'exact_unop on set / format mixes, round_is_identity and from_format on a pool of small formats, value sets and contexts of '
+     'every family: the answer must contain the exact result (Arith!Exact) for EVERY pair of members of a candidate grid, a claimed '
+     'containment must be inclusion, a claimed identity must leave every member unchanged under Rounding!Expect. Program level: '
+     'hand + generated programs are analysed by the real FormatInfer.analyze under pinned scopes and argument formats; the bound of '
+     'every assignment / return of the main function travels with the exported statement and spec/FmtMachine.tla checks, on every '
+     'step of every run over argument vectors drawn from the argument formats, that the bound contains the value.'),
+     note='Formats with precision <= 3, quantum 2^-2..2^1 and bounds <= 32 (part A); the main function only (callee instantiations are '
+          'not annotated). Known findings: the sign-of-zero rule of abstract neg / mul, and sum() of a one-element list.'),
+})
+
 ENGINES = [
+ ('AbsFormat', 'spec/AbsFormat.tla', ['C14'], 'membership in format bounds; soundness conditions of the abstract arithmetic'),
+ ('FmtMachine', 'spec/FmtMachine.tla', ['C14'], 'abstract machine with run-time membership checks of inferred bounds'),
  ('Cursor', 'spec/Cursor.tla', ['C19'], 'edit-log forwarding algebra and site index discipline'),
  ('MCCursor', 'spec/MCCursor.tla', ['C19'], 'design-level check of forwarding on all small edit sets'),
  ('Num', 'spec/Num.tla', ['C01', 'C02', 'C05', 'C16', 'C17'], 'exact rational / special-value numbers'),
